@@ -56,8 +56,13 @@ def probes(ctx):
 
 def generate(ctx):
     rng = ctx.rng
+    size = 2600
     for _ in range(ctx.n(60000, 1200000)):
         r = rng.random()
+        if rng.random() < 0.0006 and size < 200000:
+            # each one more than twice as large as the last (and as the largest index this process has built)
+            yield {'t': 'large', 'n': size + rng.randint(0, 50), 'how': rng.choice(['index', 'go', 'auto'])}
+            size = size * 2 + 700
         if r < 0.42:
             kind = rng.choice(FLAT)
             n = rng.choice([0, 1, 2, 3, 4, 5, 6, 8, 12])
@@ -313,6 +318,27 @@ def bijection(ctx, idx, model, klass, stage):
         if not canon.leq(cs(_norm(e)), cm[i]):
             fail('iloc', i=i, got=cs(_norm(e)))
             break
+    # a datetime-typed index holds periods: a key of finer resolution inside a held period (a day of a held month, a time of day of a
+    # held day), in the forms construction accepts, is not a label of the index
+    unit = np.datetime_data(idx.values.dtype)[0] if idx.depth == 1 and n and idx.values.dtype.kind == 'M' else None
+    if unit in ('M', 'D') and type(idx).__name__.startswith(('IndexYearMonth', 'IndexDate')):
+        import datetime as _dt
+        first = np.datetime64(model[0], unit)
+        if first == first:
+            if unit == 'M':
+                d0 = (first.astype('M8[D]') + np.timedelta64(16, 'D')).item()
+                finer = [d0, d0.isoformat(), _dt.datetime(d0.year, d0.month, d0.day, 5, 30)]
+            else:
+                d0 = first.item()
+                finer = [_dt.datetime(d0.year, d0.month, d0.day, 5, 30), d0.isoformat() + 'T05:30']
+            for a in finer:
+                try:
+                    member = a in idx
+                except Exception:
+                    member = False
+                if member:
+                    fail('contains_absent', label=repr(a), finer_resolution=True)
+                    break
     held = set(cm)
     for a in _ABS:
         if isinstance(a, tuple) and idx.depth > 1 and len(a) != idx.depth:
@@ -475,9 +501,48 @@ def build_hier(labels, depth, route):
 # --------------------------------------------------------------------------------------
 # checks
 
+def _check_large(case, ctx):
+    """an index far larger than anything built before it in this process: the shared positions buffer has to grow by more than a doubling."""
+    import static_frame as sf
+    n, how = case['n'], case['how']
+    klass = {'t': 'large', 'how': how}
+    ctx.evaluation(repr(case), True)
+    if how == 'index':
+        idx = sf.Index(np.arange(n) * 3)
+        labs = lambda i: i * 3
+    elif how == 'go':
+        idx = sf.IndexGO(np.arange(n) * 3)
+        labs = lambda i: i * 3
+    else:
+        idx = sf.Series(np.zeros(n)).index
+        labs = lambda i: i
+    ctx.tally('large_index', f'{how}:{n}')
+    pos = idx.positions
+    if len(idx) != n or len(pos) != n or int(pos[-1]) != n - 1:
+        ctx.violation('bijection:positions', detail={'n': n, 'len': len(idx), 'positions_len': len(pos)}, klass=dict(klass, clause='positions'))
+        return
+    for i in (0, n // 2, n - 1):
+        try:
+            p = idx.loc_to_iloc(labs(i))
+        except Exception as e:
+            ctx.violation('bijection:loc_to_iloc_raises', detail={'n': n, 'i': i, 'exception': type(e).__name__}, klass=dict(klass, clause='loc_to_iloc_raises'))
+            return
+        if int(p) != i or labs(i) not in idx:
+            ctx.violation('bijection:loc_to_iloc', detail={'n': n, 'i': i, 'got': repr(p)}, klass=dict(klass, clause='loc_to_iloc'))
+            return
+    mask = np.zeros(n, dtype=bool)
+    mask[[0, n - 1]] = True
+    sel = idx.loc_to_iloc(mask)
+    got = np.arange(n)[sel].tolist() if not isinstance(sel, slice) else list(range(n))[sel]
+    if got != [0, n - 1]:
+        ctx.violation('bijection:positions', detail={'n': n, 'boolean_key_selected': got[:6]}, klass=dict(klass, clause='boolean_key'))
+
+
 def check(case, ctx):
     t = case['t']
     ctx.tally('case_type', t)
+    if t == 'large':
+        return _check_large(case, ctx)
     if t == 'flat':
         return _check_flat(case, ctx)
     if t == 'dup':
